@@ -9,7 +9,7 @@ checks = []
 for pid in ALL:
     if pid not in props.PROPS:
         continue
-    m = mm.META[pid]
+    m = mm.META.get(pid) or props.EXTRA_META.get(pid)
     checks.append({
         "property_id": pid,
         "quick_cmd": "./check %s quick" % pid,
